@@ -1,5 +1,6 @@
 import Qentem.Proofs.JsonGrammar
 import Qentem.Proofs.JsonTokens
+import Qentem.Proofs.StrToNumReloc
 /-! C06 — every RFC 8259 document parses to the value it denotes. -/
 namespace Qentem.Props.C06
 open Qentem.Json
@@ -35,6 +36,28 @@ theorem token_negative (w d1 : Nat) (xs : List Nat) (h1 : Qentem.StrToNum.isNonZ
   numSpec_negative w d1 xs h1 hxs hv
 
 theorem token_zero (w : Nat) : NumSpec (jsonDeps w) [48] .natural 0 := numSpec_zero w
+
+/-- `token_real`: **every RFC 8259 numeral** (`[-] int [frac] [exp]`, any length, any exponent) meets the token
+contract with `kind`/`bits` = what `StringToNumber` returns on the numeral alone: embedded at any offset of any
+document and followed by a delimiter or the end, the routine consumes exactly the numeral and returns the same
+result (`Proofs/StrToNumReloc.lean`: the scanner reads nothing beyond the token except one look-ahead unit).  The
+standalone run is a closed computation (`decide`); how accurate its `bits` are is C09's statement. -/
+theorem token_real (w : Nat) (tok : List Nat) (k : Qentem.StrToNum.Kind) (bits : Nat) (hrfc : RfcNumeral tok)
+    (hrun : Qentem.StrToNum.strToNum tok 0 tok.length = some ⟨k, bits, tok.length⟩) (hk : k ≠ .notANumber) :
+    NumSpec (jsonDeps w) tok (kindOf k) bits :=
+  numSpec_of_standalone w tok k bits hrfc hrun hk
+
+/-- non-vacuity: `-0.25e-3`, `1.5` and a 23-digit mantissa with fraction and exponent are RFC numerals whose
+standalone runs are closed computations -/
+example : NumSpec (jsonDeps 1) [45, 48, 46, 50, 53, 101, 45, 51] .real 0xBF30624DD2F1A9FC :=
+  token_real 1 _ .real _ ⟨[45], [48], [46, 50, 53], [101, 45, 51], rfl, Or.inr rfl, Or.inl rfl,
+    Or.inr ⟨[50, 53], rfl, by simp, by intro x hx; simp at hx; rcases hx with rfl | rfl <;> decide⟩,
+    Or.inr ⟨101, [45], [51], rfl, Or.inl rfl, Or.inr (Or.inr rfl), by simp, by intro x hx; simp at hx; subst hx; decide⟩⟩
+    (by decide) (by decide)
+
+example : NumSpec (jsonDeps 1) [49, 46, 53] .real 0x3FF8000000000000 :=
+  token_real 1 _ .real _ ⟨[], [49], [46, 53], [], rfl, Or.inl rfl, Or.inr ⟨49, [], rfl, by decide, by intro x hx; cases hx⟩,
+    Or.inr ⟨[53], rfl, by simp, by intro x hx; simp at hx; subst hx; decide⟩, Or.inl rfl⟩ (by decide) (by decide)
 
 /-- every string body that `JSONUtils::Escape` can write (all short escapes, `\u00XX` controls, raw
 units of any width) decodes to the string it was written from -/
